@@ -15,7 +15,7 @@ Extracted tables are structure knowledge, never the oracle of a listed property.
 import json, os, re, sys
 
 V = os.path.dirname(os.path.dirname(os.path.abspath(__file__)))
-REPO = "/repo"
+REPO = os.environ.get("VERIF_REPO", "/repo")
 
 
 class ExtractError(Exception):
